@@ -6,6 +6,7 @@ import (
 	"encoding/binary"
 	"fmt"
 	"os"
+	"runtime"
 	"runtime/debug"
 	"sort"
 	"strings"
@@ -117,7 +118,8 @@ func RunShard(c *Ctx, progress *os.File) {
 	}
 	// The first cases of every phase ran in a young process; run them once more now that the process has seen
 	// everything else (whatever the library keeps process-wide - memos, pools, caches, lazily initialised
-	// tables - is in a different state), in reverse order.  The same oracles judge them.
+	// tables - is in a different state), in reverse order and each right after two forced garbage collections.
+	// The same oracles judge them.
 	for pi := len(p.Phases) - 1; pi >= 0; pi-- {
 		ph := &p.Phases[pi]
 		if ph.Solo || p.Race {
@@ -131,6 +133,8 @@ func RunShard(c *Ctx, progress *os.File) {
 			}
 		}
 		for k := len(mine) - 1; k >= 0; k-- {
+			runtime.GC() // twice, so that whatever sits in a sync.Pool or behind a finalizer or weak reference is gone
+			runtime.GC()
 			RunCase(c, pi, mine[k])
 			c.Rec.Count("cases_run_again_at_the_end_of_the_process", 1)
 			if c.Rec.Stop() {
